@@ -127,35 +127,46 @@ class Block(S):
     def kids(self): return self.stmts
 
 
+class Empty(Block):
+    """the empty statement `;`"""
+    def __init__(self): Block.__init__(self, [])
+    def c(self, ind=1): return _i(ind) + ';\n'
+
+
+def body(s, ind, bare):
+    """a controlled statement: braces always, unless the node asks for the bare form (`if (c) break;`, `while (c) ;`)"""
+    return s.c(ind + 1) if bare and not (isinstance(s, Block) and not isinstance(s, Empty)) else blk(s).c(ind)
+
+
 class If(S):
-    def __init__(self, cnd, a, b=None): self.cnd, self.a, self.b = cnd, a, b
+    def __init__(self, cnd, a, b=None, bare=False): self.cnd, self.a, self.b, self.bare = cnd, a, b, bare
     def c(self, ind=1):
-        s = _i(ind) + 'if (%s)\n' % self.cnd.c() + blk(self.a).c(ind)
-        if self.b is not None: s += _i(ind) + 'else\n' + blk(self.b).c(ind)
+        s = _i(ind) + 'if (%s)\n' % self.cnd.c() + body(self.a, ind, self.bare)
+        if self.b is not None: s += _i(ind) + 'else\n' + body(self.b, ind, self.bare)
         return s
     def kids(self): return [self.a] + ([self.b] if self.b is not None else [])
     def exprs(self): return [self.cnd]
 
 
 class While(S):
-    def __init__(self, cnd, body): self.cnd, self.body = cnd, body
-    def c(self, ind=1): return _i(ind) + 'while (%s)\n' % self.cnd.c() + blk(self.body).c(ind)
+    def __init__(self, cnd, body, bare=False): self.cnd, self.body, self.bare = cnd, body, bare
+    def c(self, ind=1): return _i(ind) + 'while (%s)\n' % self.cnd.c() + body(self.body, ind, self.bare)
     def kids(self): return [self.body]
     def exprs(self): return [self.cnd]
 
 
 class DoWhile(S):
-    def __init__(self, body, cnd): self.cnd, self.body = cnd, body
-    def c(self, ind=1): return _i(ind) + 'do\n' + blk(self.body).c(ind) + _i(ind) + 'while (%s);\n' % self.cnd.c()
+    def __init__(self, body, cnd, bare=False): self.cnd, self.body, self.bare = cnd, body, bare
+    def c(self, ind=1): return _i(ind) + 'do\n' + body(self.body, ind, self.bare) + _i(ind) + 'while (%s);\n' % self.cnd.c()
     def kids(self): return [self.body]
     def exprs(self): return [self.cnd]
 
 
 class For(S):
-    def __init__(self, init, cnd, upd, body): self.init, self.cnd, self.upd, self.body = init, cnd, upd, body
+    def __init__(self, init, cnd, upd, body, bare=False): self.init, self.cnd, self.upd, self.body, self.bare = init, cnd, upd, body, bare
     def c(self, ind=1):
         f = lambda e: '' if e is None else e.c()
-        return _i(ind) + 'for (%s; %s; %s)\n' % (f(self.init), f(self.cnd), f(self.upd)) + blk(self.body).c(ind)
+        return _i(ind) + 'for (%s; %s; %s)\n' % (f(self.init), f(self.cnd), f(self.upd)) + body(self.body, ind, self.bare)
     def kids(self): return [self.body]
     def exprs(self): return [e for e in (self.init, self.cnd, self.upd) if e is not None]
 
